@@ -205,6 +205,31 @@ def check_properties_file(prop, timeout=900):
     return res
 
 
+def run_coqchk(prop, timeout=2400):
+    """independent re-check of Properties/<prop>.vo and everything it depends on (thorough tier).
+    Returns (ok, summary string)."""
+    with Lock("coq.lock"):
+        p = run(["coqchk", "-o", "-silent", "-Q", ".", "KV", "KV.Properties." + prop], cwd=COQ, timeout=timeout)
+    out = p.stdout + p.stderr
+    if p.returncode != 0:
+        return False, "coqchk failed: " + out[-600:].replace("\n", " ")
+    m = re.search(r"\* Axioms:\s*(.*?)\n\s*\n", out, re.S)
+    axioms = m.group(1).strip() if m else "?"
+    bad = []
+    for label in ("type-in-type", "unsafe (co)fixpoints", "positivity is assumed"):
+        mm = re.search(re.escape(label) + r":\s*(.*?)\n\s*\n", out, re.S)
+        if mm and mm.group(1).strip() != "<none>":
+            bad.append(label + ": " + mm.group(1).strip()[:200])
+    if axioms != "<none>":
+        names = [x.strip() for x in axioms.split("\n") if x.strip()]
+        notallowed = [x for x in names if x.split()[0] not in ALLOWED_AXIOMS]
+        if notallowed:
+            bad.append("axioms: " + ", ".join(notallowed[:5]))
+    if bad:
+        return False, "coqchk: " + "; ".join(bad)
+    return True, "coqchk -o: Axioms: %s" % axioms
+
+
 def leg_a(prop, targets=None):
     """Returns dict with ok, obligations, discharged, failures(list of str)."""
     failures = []
